@@ -1,5 +1,5 @@
 """C17  Each row is measured with the argument, constant and type it names."""
-from lib.facts import norm, direct_place, const_int, origins, place_fields
+from lib.facts import norm, direct_place, const_int, origins, place_fields, nophi
 from lib import tables
 
 EXPLANATION = (
@@ -32,7 +32,7 @@ def r17_1(ctx, prog, crate):
     if not ctx.check(len(rcalls) == 1, "R17.1", ["run_bench_entry", "runner-call"], "bench_runner() call sites: %d" % len(rcalls), b.where(0)):
         return
     rc = rcalls[0]
-    ctx.check(any(z.kind == "call" and z.b == rc.bb for z in b.prov.op_src(an.args[0])), "R17.1", ["run_bench_entry", "names-of-this-runner"],
+    ctx.check(any(z.kind == "call" and z.b == rc.bb for z in b.prov.op_src(an.args[0])) and nophi(b.prov.op_src(an.args[0])), "R17.1", ["run_bench_entry", "names-of-this-runner"],
               "arg_names() is not asked of the runner obtained here", an.line())
     d0 = direct_place(b, spi.args[0])
     ctx.check(d0 is not None and d0[0] == "call" and d0[1].bb == an.bb, "R17.1", ["run_bench_entry", "index-base-is-original-names"],
@@ -86,8 +86,18 @@ def r17_1(ctx, prog, crate):
                     return out
                 idx = cap_src(q.args[2])
                 run = cap_src(q.args[0])
-                ctx.check(("call", "util::slice_ptr_index", spi.bb) in idx and not any(k == "binop" for k, a, bb in idx), "R17.1", ["run_bench_entry", "runs-looked-up-index"],
-                          "BenchArgsRunner::bench is not called with the index looked up for this row's label", q.line())
+                # EVERY origin of the index is the lookup of this row's label (a position in the sorted/filtered list is not)
+                all_lookup = False
+                for z in cb.prov.op_src(q.args[2]):
+                    if z.kind == "upvar":
+                        for cn in caps:
+                            if cn.lstrip("*") == z.a.lstrip("*"):
+                                cp = prog.capture_operand(cb, cn)
+                                if cp:
+                                    og = origins(cp[0], cp[1])
+                                    all_lookup = bool(og) and all(o[0] == "call" and o[1].bb == spi.bb for o in og)
+                ctx.check(("call", "util::slice_ptr_index", spi.bb) in idx and not any(k == "binop" for k, a, bb in idx) and all_lookup, "R17.1", ["run_bench_entry", "runs-looked-up-index"],
+                          "BenchArgsRunner::bench is not called (on every path) with the index looked up in the original argument list for this row's label", q.line())
                 ctx.check(any(k == "call" and bb == rc.bb for k, a, bb in run), "R17.1", ["run_bench_entry", "same-runner"],
                           "BenchArgsRunner::bench is called on a different runner than the one whose names were indexed", q.line())
                 ctx.check({z.label() for z in cb.prov.op_src(q.args[1])} == {"param:" + cb.param_name(2)}, "R17.1", ["run_bench_entry", "passes-bencher"],
@@ -225,7 +235,7 @@ def r17_3(ctx, prog, crate):
         return
     a_src = init.prov.op_src(ops["args"])
     l_src = init.prov.op_src(ops["len"])
-    ctx.check(any(z.kind == "call" and z.b == args_leak.bb for z in a_src) and any(z.kind == "call" and z.a == "core::slice::as_ptr" for z in a_src), "R17.3",
+    ctx.check(any(z.kind == "call" and z.b == args_leak.bb for z in a_src) and nophi(a_src) and any(z.kind == "call" and z.a == "core::slice::as_ptr" for z in a_src), "R17.3",
               ["runner", "args-pointer"], "ErasedArgsSlice.args is not the leaked slice's pointer", init.where(bi))
     dl = direct_place(init, ops["len"])
     ok = dl is not None and dl[0] == "call" and dl[1].callee == "core::slice::len" and any(z.kind == "call" and z.b == args_leak.bb for z in init.prov.op_src(dl[1].args[0])) \
@@ -292,7 +302,7 @@ def r17_3(ctx, prog, crate):
             bsrc = rn.prov.op_src(o["bench"])
             bench_items = [z for z in bsrc if z.kind == "fnitem"]
             asrc = rn.prov.op_src(o["args"])
-            ctx.check(any(z.kind == "call" and z.b == goi[0].bb for z in asrc), "R17.3", ["runner", "runner-holds-initialised-slice"], "BenchArgsRunner.args is not the get_or_init result", rn.where(bi2))
+            ctx.check(any(z.kind == "call" and z.b == goi[0].bb for z in asrc) and nophi(asrc), "R17.3", ["runner", "runner-holds-initialised-slice"], "BenchArgsRunner.args is not the get_or_init result", rn.where(bi2))
             # generic args of the fn item: look at the constant text
             txt = ""
             d = direct_place(rn, o["bench"])
